@@ -8,7 +8,7 @@ package server
 //@ region Keyspace: server.Server.cols, collection.Collection.*
 //@ region Hooks: server.Server.hooks, server.Server.hooksOut, server.Server.hookTree, server.Server.hookCross, server.Server.hookExpires, server.Server.groupHooks, server.Server.groupObjects
 //@ region Log: server.Server.aof, server.Server.aofbuf, server.Server.aofsz, server.Server.shrinking, server.Server.shrinklog, server.Server.qdb, server.Server.qidx
-//@ region Config: server.Config.*, server.Server.config
+//@ region Config: server.Config.*
 //@ region Follow: server.Server.followc, server.Server.fcupflags, server.Server.faofsz, server.Server.aofconnM
 //@ region Scripts: server.Server.luascripts, server.lScriptMap.*
 
@@ -25,11 +25,13 @@ package server
 //@ func rwlocker.Lock(l)
 //@   assumed
 //@   requires lock == 0
+//@   havocs Keyspace, Hooks, Log, Config, Follow
 //@   modifies lock
 //@   ensures lock == 2
 //@ func rwlocker.LockLowPriority(l)
 //@   assumed
 //@   requires lock == 0
+//@   havocs Keyspace, Hooks, Log, Config, Follow
 //@   modifies lock
 //@   ensures lock == 2
 //@ func rwlocker.Unlock(l)
@@ -41,6 +43,7 @@ package server
 //@ func rwlocker.RLock(l)
 //@   assumed
 //@   requires lock == 0
+//@   havocs Keyspace, Hooks, Log, Config, Follow
 //@   modifies lock
 //@   ensures lock == 1
 //@ func rwlocker.RUnlock(l)
@@ -90,8 +93,10 @@ package server
 //@   requires s != nil && s.config != nil && client != nil && msg != nil && len(msg.Args) > 0 && msg._command == ""
 //@   requires lock == 0 && !pending
 //@   split cmd @Message.Command: [set] result == "set" | [del] result == "del" | [drop] result == "drop" | [fset] result == "fset" | [flushdb] result == "flushdb" | [setchan] result == "setchan" | [pdelchan] result == "pdelchan" | [delchan] result == "delchan" | [sethook] result == "sethook" | [pdelhook] result == "pdelhook" | [delhook] result == "delhook" | [expire] result == "expire" | [persist] result == "persist" | [jset] result == "jset" | [pdel] result == "pdel" | [rename] result == "rename" | [renamenx] result == "renamenx" | [eval] result == "eval" | [evalsha] result == "evalsha" | [get] result == "get" | [keys] result == "keys" | [scan] result == "scan" | [nearby] result == "nearby" | [within] result == "within" | [intersects] result == "intersects" | [hooks] result == "hooks" | [chans] result == "chans" | [search] result == "search" | [ttl] result == "ttl" | [bounds] result == "bounds" | [server] result == "server" | [info] result == "info" | [type] result == "type" | [jget] result == "jget" | [evalro] result == "evalro" | [evalrosha] result == "evalrosha" | [role] result == "role" | [fget] result == "fget" | [exists] result == "exists" | [fexists] result == "fexists" | [healthz] result == "healthz" | [follow] result == "follow" | [slaveof] result == "slaveof" | [replconf] result == "replconf" | [readonly] result == "readonly" | [config] result == "config" | [output] result == "output" | [echo] result == "echo" | [massinsert] result == "massinsert" | [sleep] result == "sleep" | [shutdown] result == "shutdown" | [aofshrink] result == "aofshrink" | [client] result == "client" | [evalna] result == "evalna" | [evalnasha] result == "evalnasha" | [subscribe] result == "subscribe" | [psubscribe] result == "psubscribe" | [publish] result == "publish" | [monitor] result == "monitor" | [jdel] result == "jdel" | [stats] result == "stats" | [test] result == "test" | [aof] result == "aof" | [aofmd5] result == "aofmd5" | [gc] result == "gc" | [script] result == "script" | [ping] result == "ping" | [auth] result == "auth" | [hello] result == "hello" | [command] result == "command" | [OTHER] result != "set" && result != "del" && result != "drop" && result != "fset" && result != "flushdb" && result != "setchan" && result != "pdelchan" && result != "delchan" && result != "sethook" && result != "pdelhook" && result != "delhook" && result != "expire" && result != "persist" && result != "jset" && result != "pdel" && result != "rename" && result != "renamenx" && result != "eval" && result != "evalsha" && result != "get" && result != "keys" && result != "scan" && result != "nearby" && result != "within" && result != "intersects" && result != "hooks" && result != "chans" && result != "search" && result != "ttl" && result != "bounds" && result != "server" && result != "info" && result != "type" && result != "jget" && result != "evalro" && result != "evalrosha" && result != "role" && result != "fget" && result != "exists" && result != "fexists" && result != "healthz" && result != "follow" && result != "slaveof" && result != "replconf" && result != "readonly" && result != "config" && result != "output" && result != "echo" && result != "massinsert" && result != "sleep" && result != "shutdown" && result != "aofshrink" && result != "client" && result != "evalna" && result != "evalnasha" && result != "subscribe" && result != "psubscribe" && result != "publish" && result != "monitor" && result != "jdel" && result != "stats" && result != "test" && result != "aof" && result != "aofmd5" && result != "gc" && result != "script" && result != "ping" && result != "auth" && result != "hello" && result != "command" && result != "timeout" | [timeout.set] result == "timeout" ;; @rewriteTimeoutMsg lower(msg.Args[0]) == "set" | [timeout.del] result == "timeout" ;; @rewriteTimeoutMsg lower(msg.Args[0]) == "del" | [timeout.drop] result == "timeout" ;; @rewriteTimeoutMsg lower(msg.Args[0]) == "drop" | [timeout.fset] result == "timeout" ;; @rewriteTimeoutMsg lower(msg.Args[0]) == "fset" | [timeout.flushdb] result == "timeout" ;; @rewriteTimeoutMsg lower(msg.Args[0]) == "flushdb" | [timeout.setchan] result == "timeout" ;; @rewriteTimeoutMsg lower(msg.Args[0]) == "setchan" | [timeout.pdelchan] result == "timeout" ;; @rewriteTimeoutMsg lower(msg.Args[0]) == "pdelchan" | [timeout.delchan] result == "timeout" ;; @rewriteTimeoutMsg lower(msg.Args[0]) == "delchan" | [timeout.sethook] result == "timeout" ;; @rewriteTimeoutMsg lower(msg.Args[0]) == "sethook" | [timeout.pdelhook] result == "timeout" ;; @rewriteTimeoutMsg lower(msg.Args[0]) == "pdelhook" | [timeout.delhook] result == "timeout" ;; @rewriteTimeoutMsg lower(msg.Args[0]) == "delhook" | [timeout.expire] result == "timeout" ;; @rewriteTimeoutMsg lower(msg.Args[0]) == "expire" | [timeout.persist] result == "timeout" ;; @rewriteTimeoutMsg lower(msg.Args[0]) == "persist" | [timeout.jset] result == "timeout" ;; @rewriteTimeoutMsg lower(msg.Args[0]) == "jset" | [timeout.pdel] result == "timeout" ;; @rewriteTimeoutMsg lower(msg.Args[0]) == "pdel" | [timeout.rename] result == "timeout" ;; @rewriteTimeoutMsg lower(msg.Args[0]) == "rename" | [timeout.renamenx] result == "timeout" ;; @rewriteTimeoutMsg lower(msg.Args[0]) == "renamenx" | [timeout.eval] result == "timeout" ;; @rewriteTimeoutMsg lower(msg.Args[0]) == "eval" | [timeout.evalsha] result == "timeout" ;; @rewriteTimeoutMsg lower(msg.Args[0]) == "evalsha" | [timeout.get] result == "timeout" ;; @rewriteTimeoutMsg lower(msg.Args[0]) == "get" | [timeout.keys] result == "timeout" ;; @rewriteTimeoutMsg lower(msg.Args[0]) == "keys" | [timeout.scan] result == "timeout" ;; @rewriteTimeoutMsg lower(msg.Args[0]) == "scan" | [timeout.nearby] result == "timeout" ;; @rewriteTimeoutMsg lower(msg.Args[0]) == "nearby" | [timeout.within] result == "timeout" ;; @rewriteTimeoutMsg lower(msg.Args[0]) == "within" | [timeout.intersects] result == "timeout" ;; @rewriteTimeoutMsg lower(msg.Args[0]) == "intersects" | [timeout.hooks] result == "timeout" ;; @rewriteTimeoutMsg lower(msg.Args[0]) == "hooks" | [timeout.chans] result == "timeout" ;; @rewriteTimeoutMsg lower(msg.Args[0]) == "chans" | [timeout.search] result == "timeout" ;; @rewriteTimeoutMsg lower(msg.Args[0]) == "search" | [timeout.ttl] result == "timeout" ;; @rewriteTimeoutMsg lower(msg.Args[0]) == "ttl" | [timeout.bounds] result == "timeout" ;; @rewriteTimeoutMsg lower(msg.Args[0]) == "bounds" | [timeout.server] result == "timeout" ;; @rewriteTimeoutMsg lower(msg.Args[0]) == "server" | [timeout.info] result == "timeout" ;; @rewriteTimeoutMsg lower(msg.Args[0]) == "info" | [timeout.type] result == "timeout" ;; @rewriteTimeoutMsg lower(msg.Args[0]) == "type" | [timeout.jget] result == "timeout" ;; @rewriteTimeoutMsg lower(msg.Args[0]) == "jget" | [timeout.evalro] result == "timeout" ;; @rewriteTimeoutMsg lower(msg.Args[0]) == "evalro" | [timeout.evalrosha] result == "timeout" ;; @rewriteTimeoutMsg lower(msg.Args[0]) == "evalrosha" | [timeout.role] result == "timeout" ;; @rewriteTimeoutMsg lower(msg.Args[0]) == "role" | [timeout.fget] result == "timeout" ;; @rewriteTimeoutMsg lower(msg.Args[0]) == "fget" | [timeout.exists] result == "timeout" ;; @rewriteTimeoutMsg lower(msg.Args[0]) == "exists" | [timeout.fexists] result == "timeout" ;; @rewriteTimeoutMsg lower(msg.Args[0]) == "fexists" | [timeout.healthz] result == "timeout" ;; @rewriteTimeoutMsg lower(msg.Args[0]) == "healthz" | [timeout.follow] result == "timeout" ;; @rewriteTimeoutMsg lower(msg.Args[0]) == "follow" | [timeout.slaveof] result == "timeout" ;; @rewriteTimeoutMsg lower(msg.Args[0]) == "slaveof" | [timeout.replconf] result == "timeout" ;; @rewriteTimeoutMsg lower(msg.Args[0]) == "replconf" | [timeout.readonly] result == "timeout" ;; @rewriteTimeoutMsg lower(msg.Args[0]) == "readonly" | [timeout.config] result == "timeout" ;; @rewriteTimeoutMsg lower(msg.Args[0]) == "config" | [timeout.output] result == "timeout" ;; @rewriteTimeoutMsg lower(msg.Args[0]) == "output" | [timeout.echo] result == "timeout" ;; @rewriteTimeoutMsg lower(msg.Args[0]) == "echo" | [timeout.massinsert] result == "timeout" ;; @rewriteTimeoutMsg lower(msg.Args[0]) == "massinsert" | [timeout.sleep] result == "timeout" ;; @rewriteTimeoutMsg lower(msg.Args[0]) == "sleep" | [timeout.shutdown] result == "timeout" ;; @rewriteTimeoutMsg lower(msg.Args[0]) == "shutdown" | [timeout.aofshrink] result == "timeout" ;; @rewriteTimeoutMsg lower(msg.Args[0]) == "aofshrink" | [timeout.client] result == "timeout" ;; @rewriteTimeoutMsg lower(msg.Args[0]) == "client" | [timeout.evalna] result == "timeout" ;; @rewriteTimeoutMsg lower(msg.Args[0]) == "evalna" | [timeout.evalnasha] result == "timeout" ;; @rewriteTimeoutMsg lower(msg.Args[0]) == "evalnasha" | [timeout.subscribe] result == "timeout" ;; @rewriteTimeoutMsg lower(msg.Args[0]) == "subscribe" | [timeout.psubscribe] result == "timeout" ;; @rewriteTimeoutMsg lower(msg.Args[0]) == "psubscribe" | [timeout.publish] result == "timeout" ;; @rewriteTimeoutMsg lower(msg.Args[0]) == "publish" | [timeout.monitor] result == "timeout" ;; @rewriteTimeoutMsg lower(msg.Args[0]) == "monitor" | [timeout.jdel] result == "timeout" ;; @rewriteTimeoutMsg lower(msg.Args[0]) == "jdel" | [timeout.stats] result == "timeout" ;; @rewriteTimeoutMsg lower(msg.Args[0]) == "stats" | [timeout.test] result == "timeout" ;; @rewriteTimeoutMsg lower(msg.Args[0]) == "test" | [timeout.aof] result == "timeout" ;; @rewriteTimeoutMsg lower(msg.Args[0]) == "aof" | [timeout.aofmd5] result == "timeout" ;; @rewriteTimeoutMsg lower(msg.Args[0]) == "aofmd5" | [timeout.gc] result == "timeout" ;; @rewriteTimeoutMsg lower(msg.Args[0]) == "gc" | [timeout.script] result == "timeout" ;; @rewriteTimeoutMsg lower(msg.Args[0]) == "script" | [timeout.ping] result == "timeout" ;; @rewriteTimeoutMsg lower(msg.Args[0]) == "ping" | [timeout.auth] result == "timeout" ;; @rewriteTimeoutMsg lower(msg.Args[0]) == "auth" | [timeout.hello] result == "timeout" ;; @rewriteTimeoutMsg lower(msg.Args[0]) == "hello" | [timeout.command] result == "timeout" ;; @rewriteTimeoutMsg lower(msg.Args[0]) == "command" | [timeout.OTHER] result == "timeout" ;; @rewriteTimeoutMsg lower(msg.Args[0]) != "set" && lower(msg.Args[0]) != "del" && lower(msg.Args[0]) != "drop" && lower(msg.Args[0]) != "fset" && lower(msg.Args[0]) != "flushdb" && lower(msg.Args[0]) != "setchan" && lower(msg.Args[0]) != "pdelchan" && lower(msg.Args[0]) != "delchan" && lower(msg.Args[0]) != "sethook" && lower(msg.Args[0]) != "pdelhook" && lower(msg.Args[0]) != "delhook" && lower(msg.Args[0]) != "expire" && lower(msg.Args[0]) != "persist" && lower(msg.Args[0]) != "jset" && lower(msg.Args[0]) != "pdel" && lower(msg.Args[0]) != "rename" && lower(msg.Args[0]) != "renamenx" && lower(msg.Args[0]) != "eval" && lower(msg.Args[0]) != "evalsha" && lower(msg.Args[0]) != "get" && lower(msg.Args[0]) != "keys" && lower(msg.Args[0]) != "scan" && lower(msg.Args[0]) != "nearby" && lower(msg.Args[0]) != "within" && lower(msg.Args[0]) != "intersects" && lower(msg.Args[0]) != "hooks" && lower(msg.Args[0]) != "chans" && lower(msg.Args[0]) != "search" && lower(msg.Args[0]) != "ttl" && lower(msg.Args[0]) != "bounds" && lower(msg.Args[0]) != "server" && lower(msg.Args[0]) != "info" && lower(msg.Args[0]) != "type" && lower(msg.Args[0]) != "jget" && lower(msg.Args[0]) != "evalro" && lower(msg.Args[0]) != "evalrosha" && lower(msg.Args[0]) != "role" && lower(msg.Args[0]) != "fget" && lower(msg.Args[0]) != "exists" && lower(msg.Args[0]) != "fexists" && lower(msg.Args[0]) != "healthz" && lower(msg.Args[0]) != "follow" && lower(msg.Args[0]) != "slaveof" && lower(msg.Args[0]) != "replconf" && lower(msg.Args[0]) != "readonly" && lower(msg.Args[0]) != "config" && lower(msg.Args[0]) != "output" && lower(msg.Args[0]) != "echo" && lower(msg.Args[0]) != "massinsert" && lower(msg.Args[0]) != "sleep" && lower(msg.Args[0]) != "shutdown" && lower(msg.Args[0]) != "aofshrink" && lower(msg.Args[0]) != "client" && lower(msg.Args[0]) != "evalna" && lower(msg.Args[0]) != "evalnasha" && lower(msg.Args[0]) != "subscribe" && lower(msg.Args[0]) != "psubscribe" && lower(msg.Args[0]) != "publish" && lower(msg.Args[0]) != "monitor" && lower(msg.Args[0]) != "jdel" && lower(msg.Args[0]) != "stats" && lower(msg.Args[0]) != "test" && lower(msg.Args[0]) != "aof" && lower(msg.Args[0]) != "aofmd5" && lower(msg.Args[0]) != "gc" && lower(msg.Args[0]) != "script" && lower(msg.Args[0]) != "ping" && lower(msg.Args[0]) != "auth" && lower(msg.Args[0]) != "hello" && lower(msg.Args[0]) != "command"
+//@   gate A5: old(s.config._requirePass) == "" || client.authd except cmdOUTPUT, cmdHEALTHZ
 //@   ensures [lock-balance] lock == 0
 //@   ensures [logged] !pending
+//@   ensures [A5.flag] client.authd && !old(client.authd) ==> old(s.config._requirePass) != "" && (old(s.config._requirePass) == trimSpace(old(msg.Auth)) || (old(msg.Auth) == "" && len(old(msg.Args)) > 1 && old(s.config._requirePass) == trimSpace(old(msg.Args)[1])))
 
 //@ func mvtFilterHTTPArgs
 //@   requires msg != nil && len(msg.Args) > 0
@@ -99,6 +104,7 @@ package server
 //@   ensures msg._command == "" || msg._command == old(msg._command)
 //@   ensures len(msg.Args) > 0
 //@   ensures !modified ==> msg.Args == old(msg.Args)
+//@   ensures modified ==> len(msg.Args) >= 2 && msg.Args[0] == "INTERSECTS"
 
 //@ func rewriteTimeoutMsg
 //@   requires msg != nil && len(msg.Args) > 0
